@@ -19,4 +19,22 @@ theorem parse_wf (rs : List Rune) (hok : RunesOK rs) : (parseRunes rs).fail = no
 theorem parse_wf_bytes (bs : List UInt8) : (parse bs).fail = none → wfTree (parse bs).tree = true :=
   fun h => parse_wf' (decodeAll bs) h
 
+/-! ## non-vacuity -/
+
+/-- a comment, a task with docstring, dependencies, a parenthesised output and two commands (an
+    interpolation, a CRLF line end, the one-line closing style), a call and a final `NAME := OTHER` -/
+def wfSample : List UInt8 :=
+  "# c\n# doc\ntask t(\"a\", b) -> (c) {\n go {{x}} build\r\n ls }\ny := f(\"z\")\nx := y".toUTF8.toList
+
+set_option maxRecDepth 100000 in
+theorem wfSample_parses : (parse wfSample).fail = none ∧ (parse wfSample).tree.length = 4 := by decide +kernel
+
+example : wfTree (parse wfSample).tree = true := parse_wf_bytes wfSample wfSample_parses.1
+
+/-- `wfTree` is not trivially true: a name beginning with the keyword, `NAME := OTHER` before another
+    statement, a comment in front of a task without docstring -/
+example : wfTree [.assign [asc 116, asc 97, asc 115, asc 107] (.str [])] = false ∧
+    wfTree [.assign [asc 120] (.ident [asc 121]), .comment []] = false ∧
+    wfTree [.comment [asc 120], .task [asc 116] [] [] [] []] = false := by decide
+
 end Spok
